@@ -149,7 +149,12 @@ def run():
     for rq, end, exp in rejected:
         case, kind = meta[rq["id"]]
         if again[rq["id"]]["end"] is not None and again[rq["id"]]["end"] != end:
-            raise pvlib.Broken(f"flaky observation for {rq['src']!r}: {end!r} vs {again[rq['id']]['end']!r}")
+            h = pvlib.history_confirm(reqs, rq["id"], label="C11 history confirm")       # a process-wide cache filled by earlier cases?
+            if not h or h["end"] != end:
+                raise pvlib.Broken(f"flaky observation for {rq['src']!r}: {end!r} vs {again[rq['id']]['end']!r}")
+            ck.reject(signature(kind, case) + ":after-history", f"{rq['src']} gives {end} after other selections had been evaluated in the same process (alone: {again[rq['id']]['end']}), specification selects {exp}",
+                      {"src": rq["src"], "observed": end, "alone": again[rq["id"]]["end"], "expected": exp, "abstract": case})
+            continue
         ck.reject(signature(kind, case), f"{rq['src']} gives {end}, specification selects {exp}",
                   {"src": rq["src"], "observed": end, "expected": exp, "abstract": case})
     ck.cov["evaluations"] = len(reqs)
